@@ -22,16 +22,17 @@ run_demo() {
   fi
   echo $?
 }
-suite_rc=-1; suite_line=""; demo_with=-1; demo_without=-1
+suite_rc=-1; suite_line=""; demo_with=-1; demo_without=-1; failed=""
 if $applies; then
   PYTHONPATH="$wt/src" timeout 1800 /venv/bin/python -m pytest -q -p no:cacheprovider --timeout=900 >/tmp/cf-$name.suite.log 2>&1; suite_rc=$?
   suite_line=$(tail -1 /tmp/cf-$name.suite.log)
+  failed=$(grep "^FAILED\|^ERROR" /tmp/cf-$name.suite.log | cut -d' ' -f2 | tr '\n' ' ')
   demo_with=$(run_demo with)
   git checkout -- . ; git clean -fdq
 fi
 demo_without=$(run_demo without)
 cat > "$seed/confirm.json" <<J
-{"seed": "$name", "repo_head": "$head", "patch_applies": $applies, "suite_exit_with_patch": $suite_rc, "suite_summary": "$suite_line",
+{"seed": "$name", "repo_head": "$head", "patch_applies": $applies, "suite_exit_with_patch": $suite_rc, "suite_summary": "$suite_line", "suite_failed_tests": "$failed",
  "demo_exit_with_patch": $demo_with, "demo_exit_without_patch": $demo_without}
 J
 cd /; git -C /repo worktree remove --force "$wt"; rm -f /tmp/cf-$name.suite.log /tmp/cf-$name.demo.*.log
